@@ -142,6 +142,31 @@ CHECKS = {
         note="The idle-timeout sweep and relay-push teardown are not bound to the code here; 'pending audio flushed' is "
              "observed through the finalised TS record / HLS files only (C06 / C10 inspect their content).",
         ref="6/C16"),
+    "C06": dict(
+        technique="TLA+ acceptor RemuxOut (SameUnits, OnlyAllowedExtras, parameter sets in force, TsTime mod 2^33, Adts, RtpTime, "
+                  "completeness) + TLA+ reference model of Rtmp2MpegtsRemuxer and the HTTP-TS fan-out checked exhaustively "
+                  "against it + TLC-simulated behaviours per codec combination replayed through a real logic.Group + TLC "
+                  "trace validation of the demultiplexed output",
+        text="TLC checks the reference remuxer (probe queue, parameter-set cache, AUD insertion, AAC batching, boundary rule, "
+             "per-track time base) against the acceptor for every bounded message sequence; simulated behaviours over 14 video "
+             "kinds x audio codecs x timestamp increments, with boundary NAL / audio sizes, are published through a real Group "
+             "and what HTTP-TS subscribers (GOP cache 0-2), the HLS segments and RTSP/RTP consumers carry, demultiplexed by "
+             "independent TS/PES/PSI, Annex-B, ADTS, RTP and SDP readers, is decided by TLC with the acceptor.",
+        note="Exhaustive only for the reference model at <= 6 messages; the code is sampled (268 quick / ~10.5k thorough "
+             "scenarios + directed size sweeps); RTSP over UDP is not exercised; no media decoder is run.",
+        ref="6/C06"),
+    "C10": dict(
+        technique="TLA+ model Hls of hls.Muxer with the file system as a state variable, one spec step per file-system "
+                  "operation; TLC checks 8 invariants in every state (= every crash point); enumerated and simulated input "
+                  "histories replayed into a real hls.Muxer on a recording file-system layer + per-operation TLC trace validation",
+        text="TLC checks PlaylistWellFormed, SeqMonotone, TargetCovers, ListedExist, ListedWhole, RecentStillPresent, "
+             "NoLossNoDup, Finalised in every intermediate file-system state for bounded frame sequences over all fragment_num x "
+             "delete_threshold x cleanup_mode, fragment durations, audio-only and A/V, and one re-publish; the same histories "
+             "are fed to a real muxer and every recorded file-system operation (with parsed playlist / segment content) must "
+             "be the one the model queued and leave all invariants true.",
+        note="The Group layer (CleanupHlsIfNeeded, remuxer re-entrancy) is not modelled; file operations are atomic at the "
+             "granularity of create/write/close/rename/remove; timestamps are whole milliseconds.",
+        ref="6/C10"),
 }
 
 NOT_APPLICABLE = {}
